@@ -138,4 +138,59 @@ example : onCifs getMountComp (parseTable underComp
     [("/mnt".toList, "cifs".toList), ("/mnt/local".toList, "ext4".toList), ("/home".toList, "ext4".toList)]) "/mnt/f".toList = true := by
   decide
 
+/-! ### Regenerating the table from its own output is a no-op -/
+
+theorem sortByLenDesc_of_sorted (t : Table) (h : t.Pairwise (fun a b => b.1.length ≤ a.1.length)) :
+    sortByLenDesc t = t := by
+  induction t with
+  | nil => rfl
+  | cons x xs ih =>
+    rw [List.pairwise_cons] at h
+    have : sortByLenDesc (x :: xs) = insertByLen x (sortByLenDesc xs) := rfl
+    rw [this, ih h.2]
+    cases xs with
+    | nil => rfl
+    | cons y ys =>
+      unfold insertByLen
+      simp [h.1 y (by simp)]
+
+theorem cifs_kept (info : Table) (e : Entry) (he : e ∈ info) (hc : (lower e.2 == "cifs".toList) = true) :
+    keep underComp info e = true := by
+  unfold keep
+  rw [List.any_eq_true]
+  refine ⟨e.1, ?_, ?_⟩
+  · rw [List.mem_map]; exact ⟨e, List.mem_filter.mpr ⟨he, hc⟩, rfl⟩
+  · unfold underComp; exact List.isPrefixOf_iff_prefix.mpr (List.prefix_refl _)
+
+/-- the CIFS mount points of the filtered table are those of the full table -/
+theorem cifs_of_filtered (info : Table) :
+    (info.filter (keep underComp info)).filter (fun e => lower e.2 == "cifs".toList)
+      = info.filter (fun e => lower e.2 == "cifs".toList) := by
+  rw [List.filter_filter]
+  apply List.filter_congr
+  intro e he
+  cases hc : (lower e.2 == "cifs".toList) with
+  | false => simp
+  | true => simp [cifs_kept info e he hc]
+
+/-- FULL statement: `parse_mount_table` is idempotent on its own output, for every list of pairs —
+    a table cached in `_mount_table`, printed and parsed again, is the same table. -/
+theorem C38_parse_idempotent (pairs : Table) :
+    parseTable underComp (parseTable underComp pairs) = parseTable underComp pairs := by
+  have hs := C38_parse_sorted underComp pairs
+  rw [parseTable_eq underComp (parseTable underComp pairs), sortByLenDesc_of_sorted _ hs, parseTable_eq underComp pairs]
+  generalize sortByLenDesc pairs = info
+  have hk : keep underComp (info.filter (keep underComp info)) = keep underComp info := by
+    funext m
+    have kd : ∀ (t : Table), keep underComp t m
+        = ((t.filter (fun e => lower e.2 == "cifs".toList)).map (·.1)).any (fun c => underComp m.1 c) := fun _ => rfl
+    rw [kd, kd info, cifs_of_filtered]
+  rw [hk, List.filter_filter]
+  apply List.filter_congr
+  intro e _
+  simp
+
+example : parseTable underComp [("/mnt".toList, "cifs".toList), ("/mnt/local".toList, "ext4".toList), ("/home".toList, "ext4".toList)]
+    = [("/mnt/local".toList, "ext4".toList), ("/mnt".toList, "cifs".toList)] := by decide
+
 end PydraModel.Mount
